@@ -22,6 +22,7 @@ BUILT={
  "C19":("mis-typed twins of valid programs: the type checker and the transformer must both reject, with the same error class at the injected span; data-independent errors may not wait for the transformer; well-typed programs must not be rejected by either","4/C19"),
  "C15":("time-limit x MIP-gap x door sweep with limits placed at fractions of each model's own unlimited solve time; every outcome judged by exact certificate and certified optimum (label Optimal only within the requested gap, Feasible only feasible, errors only when a limit could fire, invalid gaps rejected)","4/C15"),
  "C16":("differential monitor over the front doors: builder (two construction styles, random call order, macro corpus) vs text (constants in text / through the API) vs PipeRunner vs RoocSolver - identical linear models where trees are identical, equal meaning otherwise (certified aux MILP), equal verdict and optimum over seven solve doors; handle/name/eval read-back against the exact evaluator","4/C16"),
+ "C20":("reported shadow prices vs exact finite differences of the certified optimum in each right-hand side (four quotients must coincide: differentiable, unique dual), three doors (LinearModel API, builder + shadow_price(name), text through RoocSolver), all sign/relation classes; for compiled models a reported price must at least lie in the exact subdifferential of the compiled model","4/C20"),
  "C17":("independent CPLEX-LP reader applied to every exported text, exact comparison with the model","4/C17"),
 }
 man={
